@@ -134,6 +134,24 @@ def _scenario_one(args):
                             tr["src"] += " crash:%s" % type(ex).__name__
                             tr["ev"].append(crash_event(real, tr["ev"]))
                         traces.append(tr)
+    if cfg["kind"] == "fleet":
+        # the dispatch timer and the capacity trigger in one instant
+        from .store_driver import fleet_same_instant_scenario
+        for cap, fd, tr_ in [(2, 3, 1), (2, 2, 0), (2, 4, 2)]:
+            for first_at in (1, fd - 1):
+                for after in (True, False):
+                    c2 = dict(cfg, cap=cap, fdelay=fd, transit=tr_)
+                    real = RealStore(c2, nprocs=2, via_edge=via_edge)
+                    tr = {"cfg": c2, "src": "scenario timer+capacity first_at=%d after=%s" % (first_at, after), "name": name,
+                          "ev": [real.settle()]}
+                    try:
+                        tr["ev"].extend(fleet_same_instant_scenario(real, first_at, after))
+                    except Exception as ex:
+                        if not common.from_library(ex):
+                            raise
+                        tr["src"] += " crash:%s" % type(ex).__name__
+                        tr["ev"].append(crash_event(real, tr["ev"]))
+                    traces.append(tr)
     fn = ("rbelt_%s.json" if name.startswith("b_") else "rand_%s.json") % name
     common.save_json(os.path.join(outdir, fn), traces)
     return {"name": name, "traces": len(traces), "events": sum(len(t["ev"]) for t in traces),
